@@ -280,6 +280,48 @@ def get_instruction_unit(res):
     return res
 
 
+def get_instruction_any_unit(res):
+    """P: MachineModel.get_instruction for a name's entry list of ANY length: the first entry, in list order, whose operand
+    pattern matches (contract of _match_operands: own unit), None if there is none or the name is None / unknown; the key
+    is the upper-cased name."""
+    ex = Engine([REPO + "/" + f for f in OPF + [HW]])
+    ex.no_init.add("MachineModel")
+    I_ = z3.IntSort()
+    N = z3.Int("n_entries")
+    mt = z3.Function("entry_matches", I_, z3.BoolSort())
+    ent = Schema("mentry", ["InstructionForm"], {"operands": ("custom", None)})
+    ent.fn["operands"] = lambda ex_, ref: ("pattern", ref.t)
+    parsed = ["parsed-operands"]
+
+    def mo(ex_, so, a, kw):
+        if not (isinstance(a[0], tuple) and a[0][0] == "pattern" and a[1] is parsed):
+            ex_.oblige("_match_operands/called-with-(entry pattern, parsed operands)", False)
+            return SBool(z3.BoolVal(False))
+        return SBool(mt(a[0][1]))
+
+    for name_case in ("add", "ADD", "Add", "sub", None):
+        def run():
+            ex.abstract["_match_operands"] = mo
+            data = {"instruction_forms_dict": {"ADD": SymSeq(N, lambda i: SRef(i, ent))}}
+            return ex.call_method("MachineModel", "get_instruction", SObj("MachineModel", _data=data), [name_case, parsed])
+
+        paths = ex.explore(run, [N >= 0])
+        j = z3.Int("j")
+
+        def post(v, p, name_case=name_case):
+            if name_case in (None, "sub"):
+                return v is None
+            none = z3.ForAll([j], z3.Implies(z3.And(0 <= j, j < N), z3.Not(mt(j))))
+            if v is None:
+                return none
+            if not isinstance(v, SRef):
+                return False
+            return z3.And(0 <= v.t, v.t < N, mt(v.t), z3.ForAll([j], z3.Implies(z3.And(0 <= j, j < v.t), z3.Not(mt(j)))))
+
+        res.add_paths(paths, post, kind=f"name={name_case}")
+    return res
+
+
 def units(tier):
     us = [Unit("C07/x86/_check_operands/registers-and-kinds", x86_unit_regs, "P",
                [(HW, "MachineModel._check_operands"), (HW, "MachineModel._check_x86_operands"), (HW, "MachineModel._is_x86_reg_type"), (PX, "ParserX86ATT.is_vector_register")], timeout=1500)]
@@ -304,6 +346,7 @@ def units(tier):
         Unit("C07/suffix-fall-backs/assign_tp_lt/aarch64", compose_unit("aarch64"), "Pb", [("osaca/semantics/arch_semantics.py", "ArchSemantics.assign_tp_lt")], timeout=1500),
         Unit("C07/_match_operands", match_operands_unit, "P", [(HW, "MachineModel._match_operands")]),
         Unit("C07/get_instruction", get_instruction_unit, "Pb", [(HW, "MachineModel.get_instruction")]),
+        Unit("C07/get_instruction(any number of entries)", get_instruction_any_unit, "P", [(HW, "MachineModel.get_instruction")]),
         bounded_unit("C07/shipped-entries-self-lookup", "c07_entries", [(HW, "MachineModel.get_instruction"), (HW, "MachineModel.__init__"), (HW, "MachineModel.operand_to_class")], timeout=2400),
     ]
     return us
